@@ -37,7 +37,7 @@ def showInt (i : Int) : List Nat :=
 
 /-! ### which variant of the code is modelled -/
 
-/-- Three places where the working tree may or may not have been repaired; the extractor reads them
+/-- The places where the working tree may or may not have been repaired; the extractor reads them
     from the source on every run (`Gen.ModeLayout`), the theorems are stated for every `Cfg`. -/
 structure Cfg where
   /-- `setctl_int(KEYPAD_APP)` stores the value in `mode.keypad`. -/
@@ -51,6 +51,9 @@ structure Cfg where
       a DECRPM / DECRQSS reply that arrives afterwards: `setctl_int` marks the field `initialised` and the
       reply handlers only fill in fields that are not. -/
   repliesGuarded : Bool
+  /-- an RGB8 capability the program has forced through `xterm.cap_rgb8` is no longer overwritten by the
+      terminal's SGR DECRQSS reply that arrives afterwards (`initialised.rgb8`). -/
+  rgb8Guarded : Bool
 deriving DecidableEq, Repr
 
 /-- The variant the working tree has. -/
@@ -58,10 +61,12 @@ def Cfg.tree : Cfg :=
   { keypadRecorded := ModeLayout.keypadRecorded
     resumeResendsPen := ModeLayout.resumeResendsPen
     underStyleSafe := ModeLayout.underStyleSafe
-    repliesGuarded := ModeLayout.repliesGuarded }
+    repliesGuarded := ModeLayout.repliesGuarded
+    rgb8Guarded := ModeLayout.rgb8Guarded }
 
 /-- The variant with all three repairs. -/
-def Cfg.repaired : Cfg := { keypadRecorded := true, resumeResendsPen := true, underStyleSafe := true, repliesGuarded := true }
+def Cfg.repaired : Cfg :=
+  { keypadRecorded := true, resumeResendsPen := true, underStyleSafe := true, repliesGuarded := true, rgb8Guarded := true }
 
 /-! ## Part 1 — the xterm driver -/
 
@@ -95,6 +100,8 @@ structure Inits where
   cursorblink : Nat := 0
   cursorshape : Nat := 0
   slrm        : Nat := 0
+  /-- only in a tree with the `rgb8Guarded` repair -/
+  rgb8        : Nat := 0
 deriving DecidableEq, Repr
 
 /-- `struct XTermDriver` after `new()`. -/
@@ -167,7 +174,8 @@ def startBytes : Out :=
 def setctlInt (cfg : Cfg) (d : XDrv) (ctl : Option Ctl) (value : Int) : XDrv × Out × Bool :=
   match ctl with
   | some .capRgb8 =>
-    ({ d with cap := { d.cap with rgb8 := wrapU ModeLayout.w_cap_rgb8 (bool01 value) } }, [], true)
+    ({ d with cap := { d.cap with rgb8 := wrapU ModeLayout.w_cap_rgb8 (bool01 value) }
+              init := { d.init with rgb8 := if cfg.rgb8Guarded then 1 else d.init.rgb8 } }, [], true)
   | some .altscreen =>
     if decide (d.mode.altscreen = 0) = decide (value = 0) then (d, [], true)
     else ({ d with mode := { d.mode with altscreen := wrapU ModeLayout.w_mode_altscreen (bool01 value) } },
@@ -246,10 +254,10 @@ def onDecrqssShape (cfg : Cfg) (d : XDrv) (value : Int) : XDrv :=
            init := { d.init with cursorshape := wrapU ModeLayout.w_initialised_cursorshape 1 } }
 
 /-- `on_decrqss` for an SGR reply, abstracted to what it concludes (sub-parameter separator, RGB). -/
-def onDecrqssSgr (d : XDrv) (colon rgb : Bool) : XDrv :=
+def onDecrqssSgr (cfg : Cfg) (d : XDrv) (colon rgb : Bool) : XDrv :=
   { d with cap := { d.cap with
       csiSubColon := if colon then wrapU ModeLayout.w_cap_csi_sub_colon 1 else d.cap.csiSubColon
-      rgb8 := if rgb then wrapU ModeLayout.w_cap_rgb8 1 else d.cap.rgb8 } }
+      rgb8 := if rgb ∧ (!cfg.rgb8Guarded || d.init.rgb8 = 0) then wrapU ModeLayout.w_cap_rgb8 1 else d.cap.rgb8 } }
 
 /-- `teardown` (the vtable's `stop` and `pause`). -/
 def drvTeardown (d : XDrv) : Out :=
@@ -402,7 +410,7 @@ deriving DecidableEq, Repr
 def applyReply (cfg : Cfg) (d : XDrv) : Reply → XDrv
   | .mode m v => onModereport cfg d m v
   | .shape v => onDecrqssShape cfg d v
-  | .sgr c r => onDecrqssSgr d c r
+  | .sgr c r => onDecrqssSgr cfg d c r
 
 /-- The xterm driver's `started()`. -/
 def drvStarted (d : XDrv) : Bool :=
@@ -894,6 +902,7 @@ structure Ghost where
   keypad : Int := 0
   blink  : Option Int := none
   shape  : Option Int := none
+  rgb8   : Option Int := none
   pen    : PenMap := PenMap.empty
   doneSetup : Bool := false
 
@@ -905,6 +914,7 @@ def Ghost.set (g : Ghost) (c : Option Ctl) (v : Int) : Ghost :=
   | some .cursorblink => { g with blink := some (bool01 v) }
   | some .mouse => { g with mouse := v }
   | some .cursorshape => { g with shape := if 0 ≤ v ∧ v ≤ 3 then some v else none }
+  | some .capRgb8 => { g with rgb8 := some (bool01 v) }
   | _ => g
 
 /-- Ghost after one operation; `ret` is the call's return value, `ua` what the toplevel instance's
@@ -957,7 +967,8 @@ def getctlOk (d : XDrv) (g : Ghost) : Bool :=
   getctlInt d (some .altscreen) == some g.alt && getctlInt d (some .cursorvis) == some g.vis &&
   getctlInt d (some .mouse) == some g.mouse && getctlInt d (some .keypadApp) == some g.keypad &&
   (g.blink.isNone || getctlInt d (some .cursorblink) == g.blink) &&
-  (g.shape.isNone || getctlInt d (some .cursorshape) == g.shape)
+  (g.shape.isNone || getctlInt d (some .cursorshape) == g.shape) &&
+  (g.rgb8.isNone || getctlInt d (some .capRgb8) == g.rgb8)
 
 /-- The mode state a terminal is assumed to start in (the driver's own assumption): primary screen,
     cursor visible, no mouse reporting, numeric keypad; blink, shape and DECLRMM are free. -/
